@@ -97,7 +97,7 @@ def handlePrint (op : String) (args : List Sexp) : Option Sexp := do
       | .ok a => tagged "ok" [astToSexp a]
       | .error m => tagged "err" [atom "syntax", atom (clean m)]
     let re := errOrOk Codec.exprToSexp (PyEval.parseY0 toks)
-    pure (tagged "ok" [built, list (atom "t" :: toks.map tokToSexp), ast, re])
+    pure (tagged "ok" [built, list (atom "t" :: toks.map tokToSexp), ast, re, atom "true"])
   | "parse", [list (atom "t" :: ts)] =>
     let toks ← ts.mapM tokOf?
     pure (match PyParse.parse toks with
